@@ -365,7 +365,7 @@ func (x *Exec) block(fr *frame, b *ssa.BasicBlock, s *State) {
 				rv[i] = x.operand(fr, s, r)
 			}
 			if !fr.inline {
-				x.atReturn(fr, s, rv)
+				x.atReturn(fr, s, rv, in.Pos())
 			}
 			fr.returns = append(fr.returns, edge{st: s, cond: s.Reach, from: b})
 			fr.retVals = append(fr.retVals, rv)
@@ -1798,7 +1798,7 @@ func (x *Exec) atSend(fr *frame, s *State, sent Value, pos token.Pos) {
 
 // atReturn checks "atreturn" region postconditions at a return site (results are
 // bound as in ensures clauses; sites where a named local is not in scope are skipped).
-func (x *Exec) atReturn(fr *frame, s *State, rv []Value) {
+func (x *Exec) atReturn(fr *frame, s *State, rv []Value, pos token.Pos) {
 	if fr.contract == nil {
 		return
 	}
@@ -1825,6 +1825,6 @@ func (x *Exec) atReturn(fr *frame, s *State, rv []Value) {
 		}
 		ac.Hits++
 		x.obligeKnown(env, fmt.Sprintf("%s#atreturn%d.%d", x.C.Unit, k, x.bump(fr, fmt.Sprintf("atreturn%d", k))), "atreturn",
-			fmt.Sprintf("%s:%d", filepath.Base(ac.File), ac.Line), "at the return: "+ac.Text, s.Reach, prop)
+			x.pos(pos), fmt.Sprintf("at this return (%s:%d): %s", filepath.Base(ac.File), ac.Line, ac.Text), s.Reach, prop)
 	}
 }
